@@ -601,6 +601,16 @@ pub fn step_case<Q: Rep>(tc: &TC<Q>, script_seed: u64, bisect: bool) -> Result<(
                 want
             ));
         }
+        if bisect && want == 0.0 && p != 0.0 {
+            fail(format!(
+                "pair ({},{}) has Metropolis ratio 0 (a zero-weight configuration would be created) but is exchanged when the uniform draw is 0.0",
+                d.left,
+                d.left + 1
+            ));
+        }
+        if want == 0.0 {
+            stat(&format!("{}.zero_ratio_pairs", Q::KIND), 1);
+        }
         let u = ((words.get(idx).copied().unwrap_or(0) >> 12) as f64) / (1u64 << 52) as f64;
         if (want - u).abs() > 1e-9 && d.accepted != (want > u) {
             fail(format!("pair ({},{}) decision {} with u={} ratio={}", d.left, d.left + 1, d.accepted, u, want));
@@ -618,9 +628,9 @@ pub fn step_case<Q: Rep>(tc: &TC<Q>, script_seed: u64, bisect: bool) -> Result<(
         }
         let mut t = format!("{} {} {} {}", d.left, if d.evaluated { "V" } else { "E" }, d.accepted as u8, if bisect { fl(p) } else { "x".into() });
         if bisect {
-            t.push_str(&format!(" {}", fl(p)));
+            t.push_str(&format!(" {} {}", fl(p), if p == 0.0 { "Z" } else { "N" }));
         } else {
-            t.push_str(" x");
+            t.push_str(" x x");
         }
         if d.evaluated {
             t.push_str(&format!(" {} {} {} {}", fl(d.rel_b), fl(inv(d.rel_b)), fl(d.rel_a), fl(inv(d.rel_a))));
@@ -845,7 +855,7 @@ pub fn equilibrate<Q: Rep>(tc: &mut TC<Q>, g: &mut SplitMix64) -> Result<(), Str
 
 pub fn mode_ising_steps(seed: u64, thorough: bool) {
     let mut g = SplitMix64::new(seed ^ 0x1005);
-    let ladders = if thorough { 260 } else { 60 };
+    let ladders = if thorough { 1400 } else { 105 };
     for l in 0..ladders {
         let n = 2 + (l % 7) as usize; // 2..8, odd and even
         let kind = g.below(6);
@@ -886,6 +896,26 @@ pub fn mode_ising_steps(seed: u64, thorough: bool) {
             }
         }
     }
+    // ladders in which a replica without longitudinal field neighbours one with a field: the moved
+    // string would have weight 0 there, so the exchange must be refused even for a draw of exactly 0.0
+    let zl = if thorough { 80 } else { 12 };
+    for l in 0..zl {
+        let n = 2 + (l % 5) as usize;
+        let mut specs = ising_ladder(&mut g, n, 3, false);
+        let hpos = (1 + g.below(4)) as f64 / 2.0;
+        for (i, s) in specs.iter_mut().enumerate() {
+            s.h = if i % 2 == (l % 2) as usize { 0.0 } else { hpos + 0.25 * (i as f64) };
+            s.beta = 1.0 + 0.25 * g.below(4) as f64;
+        }
+        let log = new_log();
+        if let Ok(mut tc) = build_ising(&mut g, &specs, &log) {
+            stat("i.ladder_zero_field_neighbours", 1);
+            if equilibrate(&mut tc, &mut g).is_err() {
+                continue;
+            }
+            let _ = step_case(&tc, g.next(), true);
+        }
+    }
     // degenerate ladders: 0 and 1 replica (the serial step draws nothing, the rayon step draws the order word)
     for n in 0..2usize {
         let specs = ising_ladder(&mut g, n.max(1), 0, false);
@@ -899,7 +929,7 @@ pub fn mode_ising_steps(seed: u64, thorough: bool) {
 
 pub fn mode_generic_steps(seed: u64, thorough: bool) {
     let mut g = SplitMix64::new(seed ^ 0x6e6e);
-    let ladders = if thorough { 80 } else { 20 };
+    let ladders = if thorough { 350 } else { 28 };
     for l in 0..ladders {
         let n = 2 + (l % 7) as usize;
         let nvars = 2 + g.below(2) as usize;
@@ -949,7 +979,7 @@ pub fn mode_generic_steps(seed: u64, thorough: bool) {
 /// container must refuse (different graph, different sign, different interactions).
 pub fn mode_pairs(seed: u64, thorough: bool) {
     let mut g = SplitMix64::new(seed ^ 0xca5);
-    let cases = if thorough { 1500 } else { 300 };
+    let cases = if thorough { 6000 } else { 400 };
     for c in 0..cases {
         // ---- Ising pair ----
         let nvars = 2 + g.below(3) as usize;
